@@ -11,6 +11,10 @@
     calls n   the application's disconnect-handler invocations for the sid, newest first, each with
               the kind of the path that made it (= the reason argument)
     sends n   DISCONNECT packets sent by `disconnect()`
+    refusals n  refusals (CONNECT_ERROR, or DISCONNECT carrying the refusal under always_connect)
+              sent by `_handle_connect` for the sid
+    marks n   (ghost) the kinds of the tasks that executed `pre_disconnect(sid, n)` — that "passed the
+              gate" of n —, newest first
     contained exceptions swallowed and logged by `_handle_eio_disconnect`'s per-namespace `try`
 
   The paths (src/socketio/server.py, async_server.py), one *task* each, with a program counter at
@@ -31,6 +35,16 @@
     conn       a CONNECT whose application connect handler is still suspended when the others
                start (the sid is already registered): chandler → csend (CONNECT packet) → done.
                It touches none of the shared variables.
+    refuse     a CONNECT whose application connect handler is still suspended when the others start
+               and REFUSES (returns False / raises ConnectionRefusedError) when it is released.  The
+               sid is registered before the handler runs, so the refusal is itself a terminating
+               path of the session — one that never tells the application:
+                 chandler the handler decides (nothing shared is touched; under always_connect the
+                          CONNECT packet was sent before the handler and is not a step)
+                 check    if not manager.is_connected(sid, n): return      (ended by a concurrent cause)
+                 mark     manager.pre_disconnect(sid, n)
+                 send     CONNECT_ERROR(refusal) / DISCONNECT(refusal) [always_connect]
+                 cleanup  manager.disconnect(sid, n)          — NO disconnect handler, nothing in `calls`
 
   `is_connected(sid, n)` = sid ∉ pending_disconnect[n] ∧ sid ∈ rooms[n][None].
   `pre_disconnect` appends to `pending_disconnect[n]` FIRST and then evaluates
@@ -53,7 +67,7 @@ namespace Sio.Sched
 abbrev Ns := Nat
 
 inductive Kind
-  | api | clientDisc | lost | conn
+  | api | clientDisc | lost | conn | refuse
   deriving Repr, DecidableEq, Inhabited
 
 inductive Pc
@@ -75,6 +89,8 @@ structure Shared where
   sends : Ns → Nat
   others : Ns → Bool
   contained : Nat
+  refusals : Ns → Nat
+  marks : Ns → List Kind
 
 structure St where
   tasks : List Task
@@ -90,7 +106,14 @@ def connected (sh : Shared) (n : Ns) : Bool := sh.mem n && sh.pend n == 0
 
 def afterMark : Kind → Pc
   | .api => .send
+  | .refuse => .send
   | _ => .handler
+
+/-- after the connect handler: an accepted CONNECT sends the CONNECT packet, a refused one goes to
+    the gate -/
+def chNext : Kind → Pc
+  | .refuse => .check
+  | _ => .csend
 
 /-- the sub-path for the current namespace is over: next namespace of the snapshot, or done -/
 def advance (t : Task) (rest : List Ns) : Task :=
@@ -98,14 +121,15 @@ def advance (t : Task) (rest : List Ns) : Task :=
 
 /-- `manager.pre_disconnect(sid, n)` executed by task `t` whose current namespace is `n` -/
 def markStep (sh : Shared) (t : Task) (n : Ns) (rest : List Ns) : Task × Shared :=
-  let sh' := { sh with pend := upd sh.pend n (sh.pend n + 1) }
+  let sh' := { sh with pend := upd sh.pend n (sh.pend n + 1),
+                       marks := upd sh.marks n (t.kind :: sh.marks n) }
   if alive sh n then ({ t with pc := afterMark t.kind }, sh')
   else if t.kind = .lost then (advance t rest, { sh' with contained := sh.contained + 1 })
   else ({ t with pc := .raised }, sh')
 
 def stepTask (atomicGate : Bool) (sh : Shared) (t : Task) : Task × Shared :=
   match t.pc, t.todo with
-  | .chandler, _ => ({ t with pc := .csend }, sh)
+  | .chandler, _ => ({ t with pc := chNext t.kind }, sh)
   | .csend, _ => ({ t with pc := .done }, sh)
   | .check, [] => ({ t with pc := .done }, sh)          -- empty namespace snapshot
   | .check, n :: rest =>
@@ -115,7 +139,10 @@ def stepTask (atomicGate : Bool) (sh : Shared) (t : Task) : Task × Shared :=
       else (advance t rest, sh)
   | .mark, n :: rest => markStep sh t n rest
   | .send, n :: _ =>
-      ({ t with pc := .handler }, { sh with sends := upd sh.sends n (sh.sends n + 1) })
+      if t.kind = .refuse then
+        ({ t with pc := .cleanup }, { sh with refusals := upd sh.refusals n (sh.refusals n + 1) })
+      else
+        ({ t with pc := .handler }, { sh with sends := upd sh.sends n (sh.sends n + 1) })
   | .handler, n :: _ =>
       ({ t with pc := .cleanup }, { sh with calls := upd sh.calls n (t.kind :: sh.calls n) })
   | .cleanup, n :: rest =>
@@ -173,6 +200,7 @@ def gateSerial (st : St) : List Nat → Bool
 
 def startPc : Kind → Pc
   | .conn => .chandler
+  | .refuse => .chandler
   | _ => .check
 
 def mkTask (k : Kind) (nss : List Ns) : Task := { kind := k, todo := nss, pc := startPc k }
@@ -181,7 +209,8 @@ def mkTask (k : Kind) (nss : List Ns) : Task := { kind := k, todo := nss, pc := 
     clients are connected to -/
 def mkShared (conn others : List Ns) : Shared :=
   { mem := fun n => conn.contains n, pend := fun _ => 0, calls := fun _ => [], sends := fun _ => 0,
-    others := fun n => others.contains n, contained := 0 }
+    others := fun n => others.contains n, contained := 0, refusals := fun _ => 0,
+    marks := fun _ => [] }
 
 def mkSt (tasks : List (Kind × List Ns)) (conn others : List Ns) : St :=
   { tasks := tasks.map (fun p => mkTask p.1 p.2), sh := mkShared conn others }
